@@ -304,7 +304,10 @@ struct WkdRun {
                 if (((op.arg(0) >> 3) + (int64_t) b) % 3 != 0)   // (one such block in three keeps the list exactly as it is: adjusting to the same list)
                 for (size_t i = l; i-- > 0;) { const std::string& t = alt[b * l + i]; if (keys[pi].pat[i].st == ST_FREE && (t.compare(0, 2, "f:") == 0 || t[0] == 'h')) { alt[b * l + i] = "-"; break; } }
             }
-            resolve(keys[pi].pat, alt.empty() ? op.s : alt, b * (size_t) sys.l, false, to, nxt);
+            // one target list in five carries the omit-all switch: the key it describes - the one nondelegable_qualifykey(parent, to) gives - has
+            // no free slot at all (every unnamed slot is hidden), and the adjusted key must be that key
+            bool to_flag = (((op.arg(0) >> 9) + (int64_t) b * 3) % 5) == 0; if (to_flag) env.count("fault:adjust_target_list_carries_omit_all_switch");
+            resolve(keys[pi].pat, alt.empty() ? op.s : alt, b * (size_t) sys.l, to_flag, to, nxt);
             // the Go wrapper reallocates the slot array to the parent's count before the call
             KeyM& kk = keys[ki];
             // (the list the key was derived with may have carried the omit-all switch; it says nothing about the target and changes nothing here)
@@ -317,10 +320,10 @@ struct WkdRun {
                 if (any) env.count("fault:hidden_entry_keeps_the_value_of_the_copied_entry");
             }
             { bool from_flag = ((op.arg(0) >> 1) + (int64_t) b) % 3 == 0; if (from_flag) env.count("fault:adjust_from_list_carries_omit_all_switch");
-              JAttrs jf(fromL2, from_flag), jt(to, false); if (jf.share_array_with(jt) || jt.share_array_with(jf)) env.count("fault:from_and_to_lists_are_views_of_one_array");
+              JAttrs jf(fromL2, from_flag), jt(to, to_flag); if (jf.share_array_with(jt) || jt.share_array_with(jf)) env.count("fault:from_and_to_lists_are_views_of_one_array");
               bool self = inplace && b == 1 && kk.ndlist.empty(); if (self) env.count("fault:adjust_in_place_key_is_its_own_parent");
               // when the two lists are equal entry for entry, the caller may well hold ONE list object and pass it twice
-              bool same_obj = !from_flag && jf.a.size() == jt.a.size() && (jf.a.empty() || memcmp(jf.a.data(), jt.a.data(), jf.a.size() * sizeof(jv_attr)) == 0) && (((op.arg(0) >> 6) + (int64_t) b) & 1);
+              bool same_obj = !from_flag && !to_flag && jf.a.size() == jt.a.size() && (jf.a.empty() || memcmp(jf.a.data(), jt.a.data(), jf.a.size() * sizeof(jv_attr)) == 0) && (((op.arg(0) >> 6) + (int64_t) b) & 1);
               if (same_obj) env.count("fault:adjust_from_and_to_are_the_same_list_object");
               call_begin(1); R.jv_wk_adjust_nd(view, kk.sk, self ? kk.sk : keys[pi].sk, &jf.l, same_obj ? &jf.l : &jt.l); expect_no_draws("adjust_nondelegable"); }
             std::vector<Slot> before = kk.pat; std::vector<MAttr> fromL = kk.ndlist;
